@@ -121,23 +121,39 @@ _G = {}
 
 
 def _work(task):
-    """Run behaviours (lists of node ids into the inherited graph, or explicit state lists) through the driver."""
+    """Run behaviours (lists of node ids into the inherited graph, or explicit state lists) through the driver.
+
+    Accounting (signature, non-triviality, per-action counts) is done here so that the parent never has to parse
+    the state labels of the whole graph."""
+    import hashlib
     from .recbind import Driver
-    cfg_name, items, conc_seed, cassette = task
+    cfg_name, items, conc_seed, cassette, cats, nontrivial = task
     dc = _G['dc'][cfg_name]
     graph = _G['graphs'].get(cfg_name)
     fac, refetch = CASSETTES[cassette]
     d = Driver(dc, fac, conc_seed=conc_seed, fetch_factory=refetch)
     res = []
-    for it in items:
+    for n_item, it in enumerate(items):
         beh = [graph.states[n] for n in it] if graph is not None and isinstance(it[0], int) else it
         try:
             mm = d.run(beh)
         except Exception as ex:  # harness failure on this behaviour: report, never hide
             import traceback
             mm = [{'cat': 'harness', 'step': -1, 'expected': '', 'observed': traceback.format_exc()[-1500:], 'note': repr(ex)}]
-        res.append(mm)
-    return cfg_name, items, conc_seed, cassette, res
+        kinds = {}
+        for s in beh[1:]:
+            k = s['ev']['kind']
+            kinds[k] = kinds.get(k, 0) + 1
+        nt = bool(nontrivial(beh))
+        bad = [m for m in mm if m['cat'] in cats]
+        r = {'mm': [dict(m) for m in mm], 'sig': hashlib.sha1(repr(beh_signature(beh)).encode()).hexdigest()[:16],
+             'nt': nt, 'kinds': kinds, 'len': len(beh)}
+        if bad or (n_item < 2 and nt and len(beh) > 4):
+            r['summary'] = ev_summary(beh)
+        if bad:
+            r['beh_json'] = [to_json(s) for s in beh]
+        res.append(r)
+    return cfg_name, conc_seed, cassette, res
 
 
 def chunks(lst, n):
@@ -176,6 +192,13 @@ def ev_summary(beh):
     return out
 
 
+def _log(msg):
+    if os.environ.get('PBVERIF_VERBOSE'):
+        import sys
+        sys.stderr.write('[pbverif] %s\n' % msg)
+        sys.stderr.flush()
+
+
 class RecorderCheck(object):
     """One property's run: TLC obligations on checking configs + replay of generated behaviours into the code."""
 
@@ -202,6 +225,7 @@ class RecorderCheck(object):
         mc.write_mc(self.scratch, 'Recorder', mod, to_tla_consts(c), invariants=invariants, properties=properties)
         r = tlc.run_tlc(self.scratch, mod, mod + '.cfg', timeout=timeout, coverage=False)
         self.rep.add_tlc(name, r, obligations=invariants + properties)
+        _log('check %s: %d distinct, %.1fs' % (name, r.distinct, r.wall_s))
         if expect is not None:
             # a design-level counterexample we expect on the *pinned* design (documentation of a finding)
             self.rep.extra.setdefault('design_counterexamples', []).append(
@@ -223,8 +247,10 @@ class RecorderCheck(object):
         mod = 'MC_%s_%s' % (self.rep.prop, name)
         mc.write_mc(self.scratch, 'Recorder', mod, to_tla_consts(c),
                     invariants=ALL_INVARIANTS if invariants is None else invariants, properties=ALL_PROPERTIES)
+        t0 = time.time()
         r, g = tlc.dump_graph(self.scratch, mod, mod + '.cfg', max_states=max_states)
         self.rep.add_tlc(name + ' (generating)', r, obligations=['all invariants'])
+        _log('generate %s: %d states, tlc+parse %.1fs' % (name, r.distinct, time.time() - t0))
         if r.violation:
             self.rep.violation({'summary': 'TLC: %s violated on generating config %s' % (r.violation, name),
                                 'signature': 'tlc:%s:%s' % (name, r.violation),
@@ -258,7 +284,9 @@ class RecorderCheck(object):
             {'config': name, 'graph_states': len(g.states), 'graph_edges': g.n_edges, 'complete_paths': total,
              'paths_replayed': len(paths), 'all_paths': exhaustive, 'cassettes': list(cassettes),
              'concretisations': n_conc})
+        t0 = time.time()
         self._replay(name, c, g, paths, cassettes, n_conc, chunk)
+        _log('replayed %d paths of %s x %s x %d in %.1fs' % (len(paths), name, cassettes, n_conc, time.time() - t0))
         return exhaustive
 
     def simulate(self, name, c, num, depth, cassettes=('memory',), n_conc=1, chunk=40):
@@ -283,44 +311,48 @@ class RecorderCheck(object):
         for cas in cassettes:
             for k in range(n_conc):
                 for ch in chunks(paths, chunk):
-                    tasks.append((name, ch, self.seed * 101 + k, cas))
+                    tasks.append((name, ch, self.seed * 101 + k, cas, self.cats, self.nontrivial))
         ctx = mp.get_context('fork')
         nproc = min(tlc.NCPU, max(1, len(tasks)))
         with ctx.Pool(nproc) as pool:
-            for cfg_name, items, conc_seed, cassette, res in pool.imap_unordered(_work, tasks):
-                for it, mm in zip(items, res):
-                    beh = [g.states[n] for n in it] if g is not None and isinstance(it[0], int) else it
-                    self._account(cfg_name, c, beh, mm, conc_seed, cassette)
+            for cfg_name, conc_seed, cassette, res in pool.imap_unordered(_work, tasks):
+                for r in res:
+                    self._account(cfg_name, c, r, conc_seed, cassette)
         _G['graphs'][name] = None
 
-    def _account(self, cfg_name, c, beh, mm, conc_seed, cassette):
+    def _account(self, cfg_name, c, r, conc_seed, cassette):
         rep = self.rep
         rep.traces += 1
         rep.evaluations += 1
-        sig = beh_signature(beh)
-        rep.note_behaviour(sig, self.nontrivial(beh))
-        for s in beh[1:]:
-            rep.count_action(s['ev']['kind'])
-        if len(rep.samples) < 3 and self.nontrivial(beh) and (len(beh) > 4):
-            rep.sample({'config': cfg_name, 'cassette': cassette, 'behaviour': ev_summary(beh)})
+        if r['nt']:
+            rep.nontrivial.add(r['sig'])
+        for k, n in r['kinds'].items():
+            rep.count_action(k, n)
+        mm = r['mm']
+        if len(rep.samples) < 3 and 'summary' in r and r['nt']:
+            rep.sample({'config': cfg_name, 'cassette': cassette, 'behaviour': r['summary']})
         harness = [m for m in mm if m['cat'] == 'harness']
         if harness:
             raise RuntimeError('harness failure on a behaviour of %s: %s' % (cfg_name, harness[0]['observed']))
         bad = [m for m in mm if m['cat'] in self.cats]
         drift = [m for m in mm if m['cat'] not in self.cats]
         rep.drift += len(drift)
-        if drift and len(rep.extra.setdefault('drift_samples', [])) < 5:
-            rep.extra['drift_samples'].append({'config': cfg_name, 'mismatch': drift[0]})
+        if drift:
+            dc = rep.extra.setdefault('drift_by_category', {})
+            for m in drift:
+                dc[m['cat']] = dc.get(m['cat'], 0) + 1
+            if len(rep.extra.setdefault('drift_samples', [])) < 5:
+                rep.extra['drift_samples'].append({'config': cfg_name, 'mismatch': drift[0]})
         if bad:
             first = bad[0]
             rep.violation({'summary': '%s: %s (expected %s, observed %s) at step %s of %s'
                                       % (first['cat'], first['note'], first['expected'], first['observed'],
                                          first['step'], cfg_name),
-                           'signature': self.signature(bad, beh),
+                           'signature': self.signature(bad, r.get('summary')),
                            'mismatches': bad[:6]},
                           replay={'kind': 'recorder', 'consts': _consts_json(c), 'cassette': cassette,
-                                  'conc_seed': conc_seed, 'behaviour': [to_json(s) for s in beh],
-                                  'summary': ev_summary(beh)})
+                                  'conc_seed': conc_seed, 'behaviour': r['beh_json'],
+                                  'summary': r.get('summary')})
 
 
 def _consts_json(c):
